@@ -237,6 +237,14 @@ func (h *histRun) answer(r *BusReq) {
 		switch h.rng.Weighted(h.cfg.GetOutcome[:]) {
 		case 0:
 			h.logf("answer get.%s ok", r.Name)
+			if wr := h.w.Get(name); wr != nil && wr.Q != nil {
+				var gp struct {
+					Query string `json:"query"`
+				}
+				json.Unmarshal(r.Payload, &gp)
+				h.g.Bus.Reply(r, nil, func() []byte { return h.w.QueryGetResponse(name, gp.Query) })
+				break
+			}
 			h.g.Bus.Reply(r, nil, func() []byte { return h.w.GetResponse(name) })
 		case 1:
 			h.logf("answer get.%s error", r.Name)
@@ -270,6 +278,12 @@ func (h *histRun) answer(r *BusReq) {
 			h.g.Bus.Reply(r, []byte(fmt.Sprintf(`{"result":{"n":%d}}`, h.callSeq)), nil)
 		}
 	default:
+		if strings.HasPrefix(r.Subject, "_QEVENT.") {
+			h.logf("answer %s events", r.Subject)
+			subj, payload := r.Subject, r.Payload
+			h.g.Bus.Reply(r, nil, func() []byte { return h.w.QueryRequestAnswer(subj, payload, "events") })
+			break
+		}
 		h.logf("answer %s timeout (unknown kind)", r.Subject)
 		h.g.Bus.Timeout(r)
 	}
@@ -908,6 +922,14 @@ func (h *histRun) checkQuiescent(final bool) {
 				continue
 			}
 			exp := h.w.ClientState(name, rc.Ver)
+			if wr.Q != nil {
+				_, q := ridName(rid)
+				if h.w.QueryDesynced(name, q) {
+					h.stat("c01_skipped", 1)
+					continue
+				}
+				exp = h.w.QueryClientState(name, q, rc.Ver)
+			}
 			got := rc.State(rid)
 			h.stat("c01_compared", 1)
 			if !JSONEqual(exp, got) {
